@@ -12,6 +12,7 @@ import (
 	"github.com/tidwall/gjson"
 
 	"github.com/corazawaf/coraza/v3/experimental/plugins/plugintypes"
+	stringsutil "github.com/corazawaf/coraza/v3/internal/strings"
 )
 
 type jsonBodyProcessor struct{}
@@ -31,8 +32,8 @@ func (js *jsonBodyProcessor) ProcessRequest(reader io.Reader, v plugintypes.Tran
 	col := v.ArgsPost()
 	data, err := readJSON(ss, bpo.RequestBodyRecursionLimit)
 	// The collection is populated before checking the error to still perform a best effort inspection of the payload
-	for key, value := range data {
-		col.SetIndex(key, 0, value)
+	for _, key := range stringsutil.SortedKeys(data) {
+		col.SetIndex(key, 0, data[key])
 	}
 	if err != nil {
 		return err
@@ -61,8 +62,8 @@ func (js *jsonBodyProcessor) ProcessResponse(reader io.Reader, v plugintypes.Tra
 	col := v.ResponseArgs()
 	data, err := readJSON(ss, ignoreJSONRecursionLimit)
 	// The collection is populated before checking the error to still perform a best effort inspection of the payload
-	for key, value := range data {
-		col.SetIndex(key, 0, value)
+	for _, key := range stringsutil.SortedKeys(data) {
+		col.SetIndex(key, 0, data[key])
 	}
 	if err != nil {
 		return err
